@@ -1,5 +1,142 @@
-import RPVerif.Model.Sched
+import RPVerif.Lemmas.Sched
+
+/-!
+# C04 — The pilot scheduler neither loses nor starves tasks
+-/
 namespace RPVerif.C04
-open RPVerif.Sched
-theorem placeholder : (1 : Nat) = 1 := rfl
+open RPVerif.Sched List
+
+def evUids (evs : List Ev) : List Nat := evs.map (fun e => match e with | .adv u _ => u)
+def uids (ts : List Req) : List Nat := ts.map (·.uid)
+
+@[simp] theorem evUids_append (a b : List Ev) : evUids (a ++ b) = evUids a ++ evUids b := by simp [evUids]
+@[simp] theorem uids_append (a b : List Req) : uids (a ++ b) = uids a ++ uids b := by simp [uids]
+
+/-- **placement of incoming tasks loses and duplicates nothing**: every task handed
+    to the placement step ends up exactly once either in the event list (started
+    or failed) or in the list of tasks to park in the wait pool -/
+theorem C04_incoming_conserve (c : Cfg) (ts : List Req) :
+    ∀ (s : SchedSt) (toWait : List Req) (evs : List Ev) (a : Nat),
+      count a (evUids (incomingOne c s ts toWait evs).2.2) + count a (uids (incomingOne c s ts toWait evs).2.1)
+        = count a (evUids evs) + count a (uids toWait) + count a (uids ts) := by
+  induction ts with
+  | nil => intro s toWait evs a; simp [incomingOne, uids]
+  | cons t ts ih =>
+    intro s toWait evs a
+    unfold incomingOne
+    have hcons : count a (uids (t :: ts)) = count a [t.uid] + count a (uids ts) := by
+      simp [uids, count_cons]; omega
+    rw [hcons]
+    -- the three ways a task leaves the placement step
+    have hwait : ∀ s', count a (evUids (incomingOne c s' ts (toWait ++ [t]) evs).2.2)
+        + count a (uids (incomingOne c s' ts (toWait ++ [t]) evs).2.1)
+        = count a (evUids evs) + count a (uids toWait) + (count a [t.uid] + count a (uids ts)) := by
+      intro s'; rw [ih]; simp [uids, count_append]; omega
+    have hev : ∀ s' st, count a (evUids (incomingOne c s' ts toWait (evs ++ [Ev.adv t.uid st])).2.2)
+        + count a (uids (incomingOne c s' ts toWait (evs ++ [Ev.adv t.uid st])).2.1)
+        = count a (evUids evs) + count a (uids toWait) + (count a [t.uid] + count a (uids ts)) := by
+      intro s' st; rw [ih]; simp [evUids, count_append]; omega
+    have htry : ∀ (res : Except Err Bool × SchedSt),
+        count a (evUids (match res with
+          | (.ok true,  s') => incomingOne c s' ts toWait (evs ++ [Ev.adv t.uid "AGENT_EXECUTING_PENDING"])
+          | (.ok false, s') => incomingOne c s' ts (toWait ++ [t]) evs
+          | (.error _,  s') => incomingOne c s' ts toWait (evs ++ [Ev.adv t.uid "FAILED"])).2.2)
+        + count a (uids (match res with
+          | (.ok true,  s') => incomingOne c s' ts toWait (evs ++ [Ev.adv t.uid "AGENT_EXECUTING_PENDING"])
+          | (.ok false, s') => incomingOne c s' ts (toWait ++ [t]) evs
+          | (.error _,  s') => incomingOne c s' ts toWait (evs ++ [Ev.adv t.uid "FAILED"])).2.1)
+        = count a (evUids evs) + count a (uids toWait) + (count a [t.uid] + count a (uids ts)) := by
+      intro res
+      obtain ⟨r, s'⟩ := res
+      cases r with
+      | error e => exact hev s' _
+      | ok b => cases b with
+        | true => exact hev s' _
+        | false => exact hwait s'
+    by_cases henv : envMissing s t = true
+    · rw [if_pos henv]; exact hwait s
+    · rw [if_neg henv]
+      cases happ : t.app with
+      | none => simp only; exact htry _
+      | some slots =>
+        simp only
+        by_cases hne : slots ≠ []
+        · rw [if_pos hne]; exact hev _ _
+        · rw [if_neg hne]; exact htry _
+
+theorem evUids_map_adv (l : List Req) (st : String) :
+    evUids (l.map (fun t => Ev.adv t.uid st)) = l.map (·.uid) := by
+  simp [evUids]
+
+theorem split_count (ts : List Req) (a : Nat) :
+    count a ((ts.filter (fun t => t.ranks > 0)).map (·.uid)) + count a ((ts.filter (fun t => t.ranks ≤ 0)).map (·.uid))
+      = count a (ts.map (·.uid)) := by
+  induction ts with
+  | nil => rfl
+  | cons t ts ih =>
+    by_cases hr : t.ranks > 0
+    · have h2 : ¬ t.ranks ≤ 0 := by omega
+      simp only [filter_cons, hr, h2, decide_true, decide_false, if_true, Bool.false_eq_true, if_false,
+                 map_cons, count_cons]
+      omega
+    · have h2 : t.ranks ≤ 0 := by omega
+      simp only [filter_cons, hr, h2, decide_true, decide_false, if_true, Bool.false_eq_true, if_false,
+                 map_cons, count_cons]
+      omega
+
+/-- draining the queue: a task with `ranks <= 0` is failed once and not scheduled;
+    every other task is handed to the placement step exactly once -/
+theorem C04_drain_conserve (ms : List Msg) (hs : ∀ m ∈ ms, ∃ ts, m = Msg.sched ts) :
+    ∀ (s : SchedSt) (toSched : List Req) (evs : List Ev) (a : Nat),
+      count a (evUids (drainIncoming s ms toSched evs).2.2) + count a (uids (drainIncoming s ms toSched evs).2.1)
+        = count a (evUids evs) + count a (uids toSched)
+          + count a ((ms.flatMap (fun m => match m with | .sched ts => ts | .cancel _ => [])).map (·.uid)) := by
+  induction ms with
+  | nil => intro s toSched evs a; simp [drainIncoming]
+  | cons m ms ih =>
+    intro s toSched evs a
+    obtain ⟨ts, rfl⟩ := hs m mem_cons_self
+    unfold drainIncoming
+    rw [ih (fun m hm => hs m (mem_cons_of_mem _ hm))]
+    simp only [flatMap_cons, map_append, count_append, evUids_append, uids_append]
+    have hsplit := split_count ts a
+    rw [evUids_map_adv]
+    simp only [uids] at hsplit ⊢
+    omega
+
+/-- **"can never be scheduled"**: a task is failed for lack of resources only when
+    nothing holds resources (`_active_cnt = 0`); otherwise it waits -/
+theorem C04_never_rule (c : Cfg) (s : SchedSt) (r : Req) (s' : SchedSt)
+    (h : scheduleTask c s r = (.ok none, s')) :
+    tryAllocation c s r = (if s'.activeCnt = 0 then (.error .runtime, s') else (.ok false, s')) := by
+  unfold tryAllocation; rw [h]
+
+/-- `lazy_bisect` always examines the last element first: on an idle pilot a
+    waiting task that fits is therefore started (the smallest task of the pool
+    by the `ranks*cores*gpus` order is placed last in the list) -/
+theorem C04_last_checked_first (c : Cfg) (data : List Req) (s : SchedSt) (fuel : Nat) (r : Req)
+    (hr : data[data.length - 1]? = some r) (s' : SchedSt) (hfit : tryAllocation c s r = (.ok true, s')) :
+    bisLoop c data (fuel + 1) {} s = bisLoop c data fuel
+      { lastGood := some (data.length - 1), good := [data.length - 1] } s' := by
+  rw [bisLoop]
+  simp only [bisCheck, hr, hfit]
+  rfl
+
+/-- FULL statement is FALSE on the current code once an application-placed task
+    was released (finding F3): the counter is corrupted, so a task that fits the
+    idle pilot is failed as "can never be scheduled".  Witness: task 0 placed by
+    the application and released; task 1 (holding) makes `_active_cnt` 0 while it
+    runs; task 2 cannot be placed right now and is FAILED although it fits the
+    idle pilot. -/
+theorem C04_app_slots_witness :
+    (runLoop { cpn := 1, gpn := 0, lfsPn := 0, memPn := 0 }
+        { nodes := [{ index := 0, cores := [.free], gpus := [], lfs := 0, mem := 0 }] } true
+        [{ incoming := [.sched [{ uid := 0, ranks := 1, cpr := 1, gpr := 0, lfs := 0, mem := 0,
+                                   app := some [{ node := 0, cores := [0], gpus := [], lfs := 0, mem := 0 }] }]],
+           unsched := [0] },
+         { incoming := [.sched [{ uid := 1, ranks := 1, cpr := 1, gpr := 0, lfs := 0, mem := 0 }]] },
+         { incoming := [.sched [{ uid := 2, ranks := 1, cpr := 1, gpr := 0, lfs := 0, mem := 0 }]] }] []).2.2
+      = [[.adv 0 "AGENT_EXECUTING_PENDING"], [.adv 1 "AGENT_EXECUTING_PENDING"], [.adv 2 "FAILED"]] := by
+  decide
+
 end RPVerif.C04
